@@ -331,6 +331,13 @@ def run_impl(case):
             outs.append((getattr(dut, nm), col))
     rst = reset_cycles(case)
     # elaborated once: with resets it is sim.simulate that elaborates (the ResetInserter-wrapped design)
+    if len(case["stim"]) % 3 == 0 and cfg["kind"] not in RESERVED:
+        # every elaboration yields the same hardware: in a third of the runs what is simulated is the second
+        # elaboration of the same action (the first result is thrown away)
+        try:
+            Fragment.get(dut, None)
+        except Exception:
+            pass
     frag = Fragment.get(dut, None) if (cfg["kind"] in RESERVED or not rst) else None
     nstmt = 0
     if cfg["kind"] in RESERVED:
